@@ -408,3 +408,26 @@ Fixpoint picklable (base_ok : nat -> bool) (f : fn) : bool :=
   | FDec _ _ => false
   | FPartial g _ _ => picklable base_ok g
   end.
+
+(* an unfolding that was not cut short: the part of the graph read is finite to that depth *)
+Fixpoint nocut (t : tree) : bool :=
+  match t with
+  | TCut | TDangling => false
+  | TNode _ c its ats => nocut c && forallb nocut its && forallb (fun p => let (_, a) := p : nat * tree in nocut a) ats
+  | _ => true
+  end.
+
+(* a chain of clones: each step clones one of the objects obtained so far *)
+Fixpoint clone_chain (h : heap) (vs : list value) (picks : list nat) : option (heap * list value) :=
+  match picks with
+  | [] => Some (h, vs)
+  | i :: r =>
+      match nth_error vs i with
+      | None => None
+      | Some v =>
+          match deepcopy h v with
+          | None => None
+          | Some (h', v') => clone_chain h' (vs ++ [v']) r
+          end
+      end
+  end.
